@@ -74,7 +74,7 @@ Definition ex_cf := mkCursor SNew (mkR 23 3) (mkR 23 3) (mkR 12 2).
 Definition ex_cfu := mkCursor SUndo (mkR 23 3) (mkR 23 3) (mkR 12 2).
 Definition ex_cf1 := mkCursor SNew (mkR 23 3) (mkR 23 3) (mkR 11 1).     (* cursor LIB 11 *)
 
-Lemma ex_numbered : forall st h l, cursor_numbered (db ex_s1) (mkCursor st (mkR 23 3) h l).
+Example ex_numbered : forall st h l, cursor_numbered (db ex_s1) (mkCursor st (mkR 23 3) h l).
 Proof. intros st h l e H. vm_compute in H. injection H as <-. reflexivity. Qed.
 
 Example c05t_nonvacuous_forked :
@@ -135,8 +135,48 @@ Qed.
 Example c05t_nonvacuous_no_source :
   rn (cu_blk ex_cf) < 4 /\ blocks_through_cursor ex_s1 4 ex_cf = BErr /\
   (match complete_segment (db ex_s) (cu_blk ex_cf) with Some (csg, reach) => map sid csg = [11; 12; 23] /\ reach = false | None => False end) /\
-  block_in (ri (cu_blk ex_cf)) ex_sg = false /\ blocks_through_cursor ex_s 2 ex_cf = BErr.
-Proof. vm_compute. repeat split. Qed.
+  block_in (ri (cu_blk ex_cf)) ex_sg = false /\ cursor_numbered (db ex_s) ex_cf /\
+  blocks_through_cursor ex_s 2 ex_cf = BErr /\
+  (* ... while blocksFromCursor still serves that cursor (Properties/C05.c05_nonvacuous_forked) *)
+  (exists evs, blocks_from_cursor ex_s ex_cf = BOk evs).
+Proof.
+  split; [vm_compute; reflexivity|]. split; [vm_compute; reflexivity|]. split; [vm_compute; auto|].
+  split; [vm_compute; reflexivity|]. split; [intros e H; vm_compute in H; injection H as <-; reflexivity|].
+  split; [vm_compute; reflexivity|]. eexists. vm_compute. reflexivity.
+Qed.
+
+(* no source: a cursor block that is not retained (its segment is empty) *)
+Example c05t_nonvacuous_not_retained :
+  let c := mkCursor SNew (mkR 77 3) (mkR 77 3) (mkR 12 2) in
+  block_in (ri (cu_blk c)) ex_sg1 = false /\ cursor_numbered (db ex_s1) c /\
+  complete_segment (db ex_s1) (cu_blk c) = Some ([], false) /\ blocks_through_cursor ex_s1 2 c = BErr.
+Proof.
+  cbn zeta. split; [vm_compute; reflexivity|]. split; [intros e H; vm_compute in H; discriminate|].
+  split; vm_compute; reflexivity.
+Qed.
+
+(* no source: start below the first block of the cursor's branch.  A hand-made well-formed state: chain
+   11<-12<-13<-14 resting on the LIB id 10, and a block 31 (number 5) whose parent is 10 too: its
+   segment is [31], reaches the LIB, and starts above start = 2 *)
+Definition ex_b31 := mkBlock 31 5 10 0.
+Definition ex_s2 : fstate :=
+  mkFS (mkDB [mkEntry ex_b1 true; mkEntry ex_b2 true; mkEntry ex_b3 true; mkEntry ex_b4 true; mkEntry ex_b31 false]
+             None (mkR 10 0)) (Some ex_b4) ref_empty 0.
+Example c05t_nonvacuous_below_branch :
+  let c := mkCursor SNew (mkR 31 5) (mkR 31 5) (mkR 10 0) in
+  wf_state ex_s2 /\
+  (exists sg, head_chain ex_s2 ex_b4 sg /\ starts_within sg 2 /\ block_in (ri (cu_blk c)) sg = false) /\
+  cursor_numbered (db ex_s2) c /\
+  (exists c0, complete_segment (db ex_s2) (cu_blk c) = Some ([c0], true) /\ 2 < bnum (seg_blk c0)) /\
+  blocks_through_cursor ex_s2 2 c = BErr.
+Proof.
+  cbn zeta. split; [apply wf_state_b_sound; vm_compute; reflexivity|].
+  split.
+  { eexists. split; [repeat split; vm_compute; reflexivity|]. split; [vm_compute; discriminate|vm_compute; reflexivity]. }
+  split; [intros e H; vm_compute in H; injection H as <-; reflexivity|].
+  split; [eexists; split; [vm_compute; reflexivity|vm_compute; reflexivity]|].
+  vm_compute. reflexivity.
+Qed.
 
 (* 3. hub.SourceThroughCursor: cursor block 13 (number 3) below start 4 = the snapshot from 4;
    start 2 = blocksThroughCursor *)
